@@ -152,6 +152,9 @@ def rtext(rng):
 def generate(rng, tier):
     quick = tier == "quick"
     cases = []
+    # 0. the validating setter of value_column
+    for v in [0, 1, 7, 40, -1, -100, 10 ** 6, "auto", "Auto", "AUTO", "", "auto ", "0", "12", True, False, {"t": "none"}]:
+        cases.append({"stream": "setter", "input": {"mode": "setter", "arg": v}})
     # 1. bounded-exhaustive grid around the padding boundary: key length x column x trailing x number of fields
     for klen in range(0, 8):
         for col in list(range(0, 13)) + ["auto"]:
@@ -405,6 +408,24 @@ def impl(case):
             rec["oracle"] = {"ok": exp is None, "detail": "str.format raised %s on a template of the modelled class %r" % (r[2], t)}
             rec["summary"] = "raised " + r[2]
         return rec
+
+    if mode == "setter":
+        import bibtexparser
+        a = inp["arg"]
+        v = a["v"] if isinstance(a, dict) else a
+        if isinstance(a, dict) and a.get("t") == "none":
+            v = None
+        f = bibtexparser.BibtexFormat()
+        before = f.value_column
+        r = implutil.guarded(lambda: setattr(f, "value_column", v))
+        raised = r[0] == "exc"
+        after = f.value_column
+        legal = (isinstance(v, int) and v >= 0) or v == "auto"
+        ok = (raised == (not legal)) and (not raised or r[2] == "ValueError") and (after == (v if legal else before))
+        return {"sx_in": [64, enc.enc_value(v)],
+                "sx_out": implutil.r_ok([int(raised), ([] if after == "auto" else [int(after)])]),
+                "oracle": {"ok": ok, "detail": "value_column = %r: raised=%r after=%r" % (v, raised, after)},
+                "nontrivial": True, "key": "S" + repr(v), "tags": ["setter"], "summary": "raised=%r after=%r" % (raised, after)}
 
     import bibtexparser
     from bibtexparser import writer
